@@ -171,10 +171,15 @@ Definition env_feeds (rows : list setting_row) (opts : list opt_row) (path name 
   | None => false
   end.
 
-(* the shape of the source the model copies *)
+(* the shape of the source the model relies on, and no more: the expansion regexp, "empty value = unset", the order
+   defaults -> cmdenv -> expansion, and that the type switch of expandEnvVarsInConfig has an arm for every type the
+   model says is rewritten and for every type it says is deliberately skipped. How an arm does its work (inline loop or
+   a helper function) is not a shape fact: that elements are expanded and written back is established by the
+   correspondence runs (lists and maps with ${...} in every element position). *)
+Definition arm_labels : list string := flat_map split_list expand_type_switch.
+Definition arms_cover (tys : list string) : bool := forallb (fun ty => existsb (String.eqb ty) arm_labels) tys.
 Definition gen_shape_ok : bool :=
   expand_empty_value_is_unset && apply_order_defaults_cmdenv_expand &&
   list_eqb String.eqb expand_regex ["\${([^}]+)}"] &&
-  list_eqb String.eqb expand_type_switch
-    ["string"; "map[string]any"; "map[string]string"; "[]any"; "string"; "map[string]any"; "[]string";
-     "*DefaultTrue, Duration, MemorySize, Level"; "bool, int, uint, uint64"].
+  arms_cover ["string"; "[]string"; "map[string]string"; "map[string]any"; "[]any"] &&
+  arms_cover ["*DefaultTrue"; "Duration"; "MemorySize"; "Level"; "bool"; "int"; "uint"; "uint64"].
